@@ -47,7 +47,7 @@ type c11Case struct {
 // C11: listing is complete, duplicate-free and ordered for any prefix / delimiter / page size.
 func runC11(run *common.Run) {
 	maxSize := run.N(4, 5)
-	run.Rule = fmt.Sprintf("sub-space 'exh' (enumerated COMPLETELY, exhaustive=true refers to it): every subset of size <= %d of the name universe %q x prefixes %q x delimiters %q, and of the nested sibling-directory universe %q x prefixes %q x delimiters %q (file store: the subsets representable as files), x maxResults 1..n+1 and unset x both stores, the token chain followed to its end (more than n+2 pages is a violation); 'rand': random larger subsets of either universe and of their union, and tree-shaped sets (8 names of depth 2-3 built from directory components that extend one another: v1, v1.2, v1-b, v10, v1!, ...) with prefixes / delimiters cut from the names; 'big' (thorough): random 12-name buckets over the alphabet {a,b,/,.,-,0} with prefixes/delimiters cut from the names. ; 'large' (both tiers, both stores): one bucket of 2300-2900 names (thorough: 3 buckets of up to 4600) - flat names, 12-30 directories of 25-45 files with sibling names sorting between them, a second flat group; group sizes drawn per seed so that the 1000th / 2000th name falls into different groups - uploaded in random order and listed with maxResults in {unset (default page size), 1 (first 60 pages), 7, 300, 999, 1000, 1001, 1200, 5000, one random size 2-60, one random size 400-2500} x 11 prefix/delimiter pairs (none, '/', prefixes cutting into the directory / flat groups, a multi-character delimiter, a prefix matching nothing), every chain followed to its end (small sizes: bounded number of pages, then the beginning of the answer is compared). Every exh / rand / big case first lists the bucket BEFORE anything was uploaded (every prefix x delimiter, maxResults unset, 1, 2: 200 and nothing) and, after the main grid, deletes its objects one by one in a case-dependent order (as given, reversed, rotated) until the bucket is empty: listed after the last delete (every fourth case after every delete) with every prefix x delimiter x maxResults in {unset, 1, n+1}, bucket metadata GET 200 before the first upload and after the last delete; every second case then uploads half of the names again and lists. 'long' (both tiers, both stores): 4 (thorough: 40) sets of 9 names of up to 1024 bytes - three nested directory components of 200-230 bytes, file components <= 240 bytes (legal file-store paths), total lengths 700, 765, 766, 767 and 1024 bytes, shorter names inside and beside the long directories - listed with maxResults unset, 1..n+1 x prefixes cut from the names (up to > 766 bytes, a whole name) x delimiters {none, '/', three bytes of a directory component}, every nextPageToken followed, so that page boundaries fall on every long name and on prefixes collapsed from them; then drained and refilled like the other cases. 'churn' (both tiers, both stores): pools of 6 names from either universe or their union; 14-24 drawn uploads / deletes / overwrites of single objects, then deletes until nothing is left, so that the bucket runs empty through deletes of nested and top-level names several times and is filled again; after EVERY mutation the complete prefix x delimiter grid with maxResults in {unset, 1, 2, n+1}, and the bucket GET whenever it is empty. Oracle per pagination: concatenated items == model items, concatenated prefixes == model prefixes (each once, ascending), items+prefixes per page <= maxResults, every item's JSON == the metadata GET of that name; plus malformed tokens / maxResults => 400, missing bucket => 404, an existing bucket - also one that never held an object or lost its last object through a delete - => 200 for the listing (no items) and for its metadata GET. Case = one (name set, store). Non-trivial = at least one pagination of the case needed >= 2 pages and at least one listing returned a collapsed prefix (churn: the bucket was emptied by deletes at least twice and a pagination needed >= 2 pages); distinct by name set x store. Objects are stored one time in three by a media upload (content type only), else by a multipart or resumable upload whose metadata draws from content type / disposition / language / encoding identity, cache control, user metadata, customTime, holds, acl entries + owner (three in four), retention, customerEncryption, one in four patched afterwards (every second name set of 'exh' uses media uploads only); listings are sent with projection unset / full / noAcl in turn and every listed item - the whole resource as decoded JSON - must equal the metadata GET of that name sent with the same projection value.", maxSize, c11Universe, c11Prefixes, c11Delims, c11Universe2, c11Prefixes2, c11Delims2)
+	run.Rule = fmt.Sprintf("sub-space 'exh' (enumerated COMPLETELY, exhaustive=true refers to it): every subset of size <= %d of the name universe %q x prefixes %q x delimiters %q, and of the nested sibling-directory universe %q x prefixes %q x delimiters %q (file store: the subsets representable as files), x maxResults 1..n+1 and unset x both stores, the token chain followed to its end (more than n+2 pages is a violation); 'rand': random larger subsets of either universe and of their union, and tree-shaped sets (8 names of depth 2-3 built from directory components that extend one another: v1, v1.2, v1-b, v10, v1!, ...) with prefixes / delimiters cut from the names; 'big' (thorough): random 12-name buckets over the alphabet {a,b,/,.,-,0} with prefixes/delimiters cut from the names. ; 'large' (both tiers, both stores): one bucket of 2300-2900 names (thorough: 3 buckets of up to 4600) - flat names, 12-30 directories of 25-45 files with sibling names sorting between them, a second flat group; group sizes drawn per seed so that the 1000th / 2000th name falls into different groups - uploaded in random order and listed with maxResults in {unset (default page size), 1 (first 60 pages), 7, 300, 999, 1000, 1001, 1200, 5000, one random size 2-60, one random size 400-2500} x 11 prefix/delimiter pairs (none, '/', prefixes cutting into the directory / flat groups, a multi-character delimiter, a prefix matching nothing), every chain followed to its end (small sizes: bounded number of pages, then the beginning of the answer is compared). Every exh / rand / big case first lists the bucket BEFORE anything was uploaded (every prefix x delimiter, maxResults unset, 1, 2: 200 and nothing) and, after the main grid, deletes its objects one by one in a case-dependent order (as given, reversed, rotated) until the bucket is empty: listed after the last delete (every fourth case after every delete) with every prefix x delimiter x maxResults in {unset, 1, n+1}, bucket metadata GET 200 before the first upload and after the last delete; every second case then uploads half of the names again and lists. 'long' (both tiers, both stores): 4 (thorough: 40) sets of 9 names of up to 1024 bytes - three nested directory components of 200-230 bytes, file components <= 240 bytes (legal file-store paths), total lengths 700, 765, 766, 767 and 1024 bytes, shorter names inside and beside the long directories - listed with maxResults unset, 1..n+1 x prefixes cut from the names (up to > 766 bytes, a whole name) x delimiters {none, '/', three bytes of a directory component}, every nextPageToken followed, so that page boundaries fall on every long name and on prefixes collapsed from them; then drained and refilled like the other cases. 'churn' (both tiers, both stores): pools of 6 names from either universe or their union; 14-24 drawn uploads / deletes / overwrites of single objects, then deletes until nothing is left, so that the bucket runs empty through deletes of nested and top-level names several times and is filled again; after EVERY mutation the complete prefix x delimiter grid with maxResults in {unset, 1, 2, n+1}, and the bucket GET whenever it is empty. Oracle per pagination: concatenated items == model items, concatenated prefixes == model prefixes (each once, ascending), items+prefixes per page <= maxResults, every item's JSON == the metadata GET of that name; plus malformed tokens / maxResults => 400, missing bucket => 404, an existing bucket - also one that never held an object or lost its last object through a delete - => 200 for the listing (no items) and for its metadata GET. Case = one (name set, store). Non-trivial = at least one pagination of the case needed >= 2 pages and at least one listing returned a collapsed prefix (churn: the bucket was emptied by deletes at least twice and a pagination needed >= 2 pages); distinct by name set x store. Objects are stored one time in three by a media upload (content type only), else by a multipart or resumable upload whose metadata draws from content type / disposition / language / encoding identity, cache control, user metadata, customTime, holds, acl entries + owner (three in four), retention, customerEncryption, one in four patched afterwards (every second name set of 'exh' uses media uploads only); listings are sent with projection unset / full / noAcl in turn and every listed item - the whole resource as decoded JSON - must equal the metadata GET of that name sent with the same projection value. List -> PATCH -> list again: after the full grid of a case one to three of the objects just listed are patched (drawn fields) and the bucket is listed again with every prefix x delimiter x maxResults {unset, 2}; churn cases patch a live object in one mutation step in five; the items are compared with the metadata GETs sent AFTER the patch.", maxSize, c11Universe, c11Prefixes, c11Delims, c11Universe2, c11Prefixes2, c11Delims2)
 	run.Assumptions = []string{
 		"listing model from the statement: bytewise ascending names, prefix filter, collapse at the first delimiter after the prefix",
 		"file store: only name sets representable as files (no name that is a directory of another, no trailing '/')",
@@ -465,6 +465,22 @@ func (s *c11Objects) upload(n string, content []byte) string {
 		}
 		s.run.Count("objects_patched_before_listing", 1)
 	}
+	return s.readBack(n)
+}
+
+// patch sends a PATCH with drawn fields to an object that is live (and, where the caller says so, was listed before)
+// and reads its metadata back with every projection value: later listings are compared with the state AFTER the patch.
+func (s *c11Objects) patch(n string) string {
+	body, _ := json.Marshal(genPatchFields(s.r))
+	if rsp := s.cl.Patch(s.b, n, body, nil); !rsp.OK() {
+		return fmt.Sprintf("patch of %q with %s failed: %s", clipName(n), body, rsp)
+	}
+	return s.readBack(n)
+}
+
+// readBack stores what a metadata GET of n returns now, per projection value.
+func (s *c11Objects) readBack(n string) string {
+	cl, b := s.cl, s.b
 	for _, p := range c11Projections {
 		target := drive.ObjPath(b, n)
 		if p != "" {
@@ -666,6 +682,14 @@ func c11Run(run *common.Run, srv *drive.Server, c c11Case, ci int) {
 						return
 					}
 					what = fmt.Sprintf("step %d: after overwriting %q", st, x)
+				} else if r.Chance(1, 4) {
+					// a PATCH of an object that earlier listings of this server showed with its old metadata
+					if msg := objs.patch(x); msg != "" {
+						fail(msg)
+						return
+					}
+					run.Count("objects_patched_between_two_listings", 1)
+					what = fmt.Sprintf("step %d: after patching %q", st, x)
 				} else {
 					if rsp := cl.Delete(b, x, nil); !rsp.OK() {
 						fail(fmt.Sprintf("delete of %q failed: %s", x, rsp))
@@ -714,6 +738,24 @@ func c11Run(run *common.Run, srv *drive.Server, c c11Case, ci int) {
 	}
 	if !grid(c.names, full, "") {
 		return
+	}
+	// list -> PATCH -> list again: one to three of the objects just listed are patched (metageneration +1, same
+	// generation and content); every item of the listings that follow must equal its metadata GET AFTER the patch.
+	if n > 0 && c.sub != "large" {
+		pr := run.Rand("C11.patch", ci)
+		var patched []string
+		for k, kn := 0, pr.Range(1, 3); k < kn; k++ {
+			x := common.Pick(pr, c.names)
+			if msg := objs.patch(x); msg != "" {
+				fail(msg)
+				return
+			}
+			patched = append(patched, x)
+			run.Count("objects_patched_between_two_listings", 1)
+		}
+		if !grid(c.names, []int{0, 2}, fmt.Sprintf("after patching %q, which the listings before showed", clipNames(patched))) {
+			return
+		}
 	}
 	// Drain: the objects are deleted one by one (order varies with the case) until the bucket is empty again. It is
 	// listed after every delete (every fourth case; the others after the last one) - a bucket emptied by deletes is
